@@ -379,6 +379,21 @@ def write_replay(pid, name, content):
 # ---------------------------------------------------------------- the generic check
 
 def run_check(spec, tier, seed, replay=None):
+    """One whole check.  Checks that share regenerated facts (the same extractor writes the same Generated/*.lean, whose
+    compiled form every run reads) are serialised against each other: a dry-run on a scratch copy (VERIF_REPO) must not
+    swap the facts under a run on /repo.  Locks are taken in sorted order."""
+    names = sorted(set(spec.get("extract", []))) or [spec["id"].lower()]
+    locks = [Lock("facts-" + n) for n in names]
+    for l in locks:
+        l.__enter__()
+    try:
+        return _run_check(spec, tier, seed, replay)
+    finally:
+        for l in reversed(locks):
+            l.__exit__()
+
+
+def _run_check(spec, tier, seed, replay=None):
     pid = spec["id"]
     t0 = time.time()
     violations = []          # (replay_path, suffix)
